@@ -391,7 +391,7 @@ var _ = os.Getenv
 var Prop = &harness.Prop{
 	ID:          "C20",
 	Level:       "model_checking",
-	Rule:        "controlled scheduling of small colliding harnesses: the library is rebuilt with every sync/sync-atomic import redirected to scheduler-aware shims and with statement-level scheduling points in the functions that share plain memory; for each scenario all schedules with at most the stated number of preemptions are executed (iterative context bounding, stateless DFS with replay) and every thread's result is compared with the sequential outcome; deadlock = no enabled thread, horizon = step budget. gmtls connections run under the same scheduler over an in-memory transport whose blocking Read is a scheduler wait: on one established connection two and three concurrent Write calls (the peer must read one of the sequential orders), Read with Write, two Read calls, Write with Close (prefix oracle: Close is documented to break an in-flight Write), for both suites; two Handshake calls on one connection while the server answers; two simultaneous connections sharing server and client Config (first use of the Config, session cache, ticket-key rotation meanwhile; here every departure from the default schedule counts as a deviation). A separate free-running pass built with -race executes the same thread bodies and reports data races. states = distinct schedules, transitions = scheduling points executed. Race pass additions: key log written through per-connection clones handed out by GetConfigForClient (writer deliberately unsafe); a reference server renegotiating twice while two goroutines write, one reads and one polls ConnectionState (every Write must succeed). Controlled-scheduler scenario one-conn-renegotiation-read-write (TLS 1.2, both AES suites): the scripted reference server asks for a renegotiation while one goroutine reads and another writes; every schedule up to the preemption bound must give the sequential results. Race pass also: a structured certificate pool (key-id groups of 3 and 5 roots, roots without key id, intermediates, 24 leaves) verified by 8 goroutines; controlled scheduler also: a malformed inbound record header racing a writer on one connection.",
+	Rule:        "controlled scheduling of small colliding harnesses: the library is rebuilt with every sync/sync-atomic import redirected to scheduler-aware shims and with statement-level scheduling points in the functions that share plain memory; for each scenario all schedules with at most the stated number of preemptions are executed (iterative context bounding, stateless DFS with replay) and every thread's result is compared with the sequential outcome; deadlock = no enabled thread, horizon = step budget. gmtls connections run under the same scheduler over an in-memory transport whose blocking Read is a scheduler wait: on one established connection two and three concurrent Write calls (the peer must read one of the sequential orders), Read with Write, two Read calls, Write with Close (prefix oracle: Close is documented to break an in-flight Write), for both suites; two Handshake calls on one connection while the server answers; two simultaneous connections sharing server and client Config (first use of the Config, session cache, ticket-key rotation meanwhile; here every departure from the default schedule counts as a deviation). A separate free-running pass built with -race executes the same thread bodies and reports data races. states = distinct schedules, transitions = scheduling points executed. Race pass additions: key log written through per-connection clones handed out by GetConfigForClient (writer deliberately unsafe); a reference server renegotiating twice while two goroutines write, one reads and one polls ConnectionState (every Write must succeed). Controlled-scheduler scenario one-conn-renegotiation-read-write (TLS 1.2, both AES suites): the scripted reference server asks for a renegotiation while one goroutine reads and another writes; every schedule up to the preemption bound must give the sequential results. Race pass also: a structured certificate pool (key-id groups of 3 and 5 roots, roots without key id, intermediates, 24 leaves) verified by 8 goroutines; controlled scheduler also: a malformed inbound record header racing a writer on one connection. Further controlled-scheduler scenarios: package-level SM2 calls with own random streams (sync.Pool shim: Get/Put are scheduling points, LIFO reuse); a keyed reference server planting an oversized / wrong-MAC / unexpected-type record while a writer runs; two writers against CloseWrite.",
 	Assumptions: []string{"scheduling points exist at synchronisation operations and at the statements of the instrumented functions; unsynchronised accesses elsewhere are the race pass's job", "SetIV and the PKCS#7 content-encryption selector are documented process-wide settings and are not run concurrently"},
 	Bounds:      func(tier string) string { return "see per-scenario preemption bounds (quick 1-2, thorough 2-3)" },
 	Units: func(tier string) []harness.Unit {
